@@ -1,5 +1,6 @@
 import PB.Model.Subs
 import PB.Model.SubsConc
+import PB.Model.HooksConc
 import PB.Drv.Loop
 /- Driver for C14: one database operation per line on the sequential model (`PB.Subs`), and an acceptor for
    recorded concurrent traces (`ev …` / `obs …` lines) on the interleaving model (`PB.SubsConc`). -/
@@ -131,6 +132,9 @@ structure D where
   behs : List (Nat × String × String × String) := []
   sids : List Nat := []
   conc : PB.SubsConc.Acc := {}
+  hconc : PB.HooksConc.HAcc := {}
+  /-- which acceptor the `ev` / `obs` lines of the current case go to: the `hconc` header selects the hook protocol -/
+  hmode : Bool := false
 
 def fmtCall (d : D) (c : Call) : String :=
   let (pg, og, pp) := match d.behs.find? (·.1 == c.hook) with
@@ -186,9 +190,19 @@ def handle (d : D) (line : String) : D × String :=
   let bad := (d, "bad-op")
   let w := PB.Drv.words line
   match w with
-  | "ev" :: _ | "obs" :: _ | "conc" :: _ | "cs" :: _ | "cw" :: _ =>
+  | "hconc" :: _ | "ch" :: _ | "cr" :: _ | "cg" :: _ =>
+    let (a, o) := PB.HooksConc.accept d.hconc w parseQuery parseRecSpec
+    ({ d with hconc := a, hmode := true }, o)
+  | "conc" :: _ | "cs" :: _ | "cw" :: _ =>
     let (a, o) := PB.SubsConc.accept d.conc w parseSpec parseRecSpec
-    ({ d with conc := a }, o)
+    ({ d with conc := a, hmode := false }, o)
+  | "ev" :: _ | "obs" :: _ =>
+    if d.hmode then
+      let (a, o) := PB.HooksConc.accept d.hconc w parseQuery parseRecSpec
+      ({ d with hconc := a }, o)
+    else
+      let (a, o) := PB.SubsConc.accept d.conc w parseSpec parseRecSpec
+      ({ d with conc := a }, o)
   | ["db", kind, sh] =>
     if d.st.isSome || !(sh == "0" || sh == "1") then bad else
     let k : Option Kind := match kind with
